@@ -703,6 +703,9 @@ func (r *vpsRun) left(e int) {
 
 // leaveCallback: a completed-DKG result whose new group does not contain this node reaches
 // BeaconProcess.onDKGCompleted -> leaveNetwork (StopAt, then fileStore.Reset).
+// NOT PART OF ANY REGISTERED RUN: no production path produces such a result in this tree
+// (see spec/Persist.tla, Expand); kept so that the observation F16/F17 can be re-made by hand
+// with a script containing ["leavecb", e].
 func (r *vpsRun) leaveCallback(e int) {
 	last, err := r.dstore.GetFinished(vpsBeaconID)
 	if err != nil || last == nil {
